@@ -12,8 +12,11 @@ package main
 
 import (
 	"fmt"
+	"os"
 	"reflect"
 	"regexp"
+	"runtime"
+	"runtime/debug"
 	"sort"
 	"strconv"
 	"strings"
@@ -823,7 +826,28 @@ func reachesAny(si *schemaInfo, mi *msgInfo, seen map[int]bool) bool {
 	return false
 }
 
+// a generator whose recursion is no longer bounded (nesting limit not applied on some path) grows
+// without end: stop at a heap or stack size no bounded draw comes near, and report the draw
+func startGrowthWatch(o *out) {
+	debug.SetMaxStack(512 << 20)
+	go func() {
+		for {
+			time.Sleep(250 * time.Millisecond)
+			var ms runtime.MemStats
+			runtime.ReadMemStats(&ms)
+			if ms.HeapAlloc > 6<<30 {
+				d, _ := wdDesc.Load().([3]string)
+				o.w.WriteString("#PROPFAIL\tC18\tgrowth/" + d[1] + "\tgeneration holds more than 6 GiB: " + d[2] + "\n")
+				o.propFail++
+				o.close()
+				os.Exit(3)
+			}
+		}
+	}()
+}
+
 func engineRapid(cfg config, o *out) {
+	startGrowthWatch(o)
 	var all []*rschema
 	for _, si := range loadSchemas() {
 		all = append(all, &rschema{si: si, resolver: protoregistry.GlobalTypes})
@@ -833,7 +857,7 @@ func engineRapid(cfg config, o *out) {
 	budget := 6e4
 	seeds := 6
 	if cfg.thorough() {
-		budget, seeds = 1.5e5, 36
+		budget, seeds = 1.5e5, 28
 	}
 	r := newRng(cfg.seed, "rapid")
 	for _, rs := range all {
